@@ -585,3 +585,36 @@ func Merge(md protoreflect.MessageDescriptor, dst, src *Msg, r Resolver) *Msg {
 	out.Unknown = append(out.Unknown, src.Unknown...)
 	return out
 }
+
+// Normalize drops singular implicit-presence scalar fields holding their zero value (they are
+// "not populated" by the presence rules), recursively; used after a value was edited in place.
+func Normalize(md protoreflect.MessageDescriptor, v *Msg, r Resolver) *Msg {
+	if v == nil {
+		return nil
+	}
+	out := &Msg{Unknown: v.Unknown}
+	for _, f := range v.Fields {
+		fd := FieldDesc(md, f.Num, r)
+		if fd == nil {
+			out.Fields = append(out.Fields, f)
+			continue
+		}
+		if !fd.IsList() && !fd.IsMap() && fd.Message() == nil && !fd.HasPresence() && len(f.Vals) == 1 && IsZero(fd, f.Vals[0]) {
+			continue
+		}
+		sub := fd.Message()
+		if fd.IsMap() {
+			sub = fd.MapValue().Message()
+		}
+		g := Field{Num: f.Num, Keys: f.Keys}
+		for _, x := range f.Vals {
+			if sub != nil {
+				g.Vals = append(g.Vals, Val{M: Normalize(sub, x.M, r)})
+			} else {
+				g.Vals = append(g.Vals, x)
+			}
+		}
+		out.Fields = append(out.Fields, g)
+	}
+	return out
+}
